@@ -107,7 +107,7 @@ pub fn run(ctx: &Ctx) -> Report {
     Report {
         acc,
         exhaustive: true,
-        rule: "every encode-side value and every representable byte-lane-walk value of all 19 attribute types and raw attributes of every length 0..=763, each written into destinations of every size 0..=padded+16 (encodings above 96 bytes: every size in 0..=40 and within 40 bytes of the needed size, every 61st in between); builders of the C03 family (+ application attributes of 0..=1100, ~4096 and 65 000 bytes, + an application attribute whose value changes after add_attribute, + a sibling clone kept and serialised, + interleaved into_owned/clone; + the builder measured and serialised after every operation / at each single position), each written into destinations of every size 0..=len+16; distinct_nontrivial = value/builder cases that could be constructed".into(),
+        rule: "every encode-side value and every representable byte-lane-walk value of all 19 attribute types and raw attributes of every length 0..=763, each written into destinations of every size 0..=padded+16 (and its header alone through write_header / write_header_unchecked into destinations of 0..=8 bytes) (encodings above 96 bytes: every size in 0..=40 and within 40 bytes of the needed size, every 61st in between); builders of the C03 family (+ application attributes of 0..=1100, ~4096 and 65 000 bytes, + an application attribute whose value changes after add_attribute, + a sibling clone kept and serialised, + interleaved into_owned/clone; + the builder measured and serialised after every operation / at each single position), each written into destinations of every size 0..=len+16; distinct_nontrivial = value/builder cases that could be constructed".into(),
         bounds: json!({"attribute_value_cases": n_attr, "builder_cases": n_all - n_attr, "dest_sizes": "0..=needed+16"}),
         assumptions: vec![],
         ..Default::default()
@@ -165,6 +165,26 @@ fn attr_paths(acc: &mut Acc, case: &Case, w: &dyn AttributeWrite, want: &[u8], l
                     viol!(acc, P, &format!("write-depends-on-alignment/{label}"), case, format!("write_into a destination whose address is {r} modulo 4 does not give the reference encoding (or touches bytes outside the destination)"), fmt_bytes(want), format!("{other:?} {}", fmt_bytes(&buf[s0..s0 + needed])));
                     break;
                 }
+            }
+        }
+    }
+    // the header-only encoder (a writer that sends header, value and padding separately): 4 bytes are
+    // all it needs, whatever the length of the value
+    for size in (0..=8usize).chain([needed, needed + 3]) {
+        let mut dest = vec![0xAAu8; size];
+        acc.evaluations += 1;
+        let r = w.write_header(&mut dest);
+        let ok = if size >= 4 { matches!(r, Ok(4)) && dest[..4] == want[..4] && dest[4..].iter().all(|b| *b == 0xAA) } else { r.as_ref().err().and_then(too_small) == Some((4, size)) && dest.iter().all(|b| *b == 0xAA) };
+        if !ok {
+            viol!(acc, P, &format!("write_header/{label}"), case, format!("write_header into a destination of {size} bytes"), if size >= 4 { format!("Ok(4), {} then untouched bytes", fmt_bytes(&want[..4])) } else { format!("TooSmall {{ expected: 4, actual: {size} }}, destination untouched") }, format!("{r:?} {}", fmt_bytes(&dest)));
+            break;
+        }
+        if size >= 4 {
+            let mut d2 = vec![0xAAu8; size];
+            let n = w.write_header_unchecked(&mut d2);
+            if n != 4 || d2 != dest {
+                viol!(acc, P, &format!("write_header/{label}"), case, "write_header_unchecked differs from write_header", fmt_bytes(&dest), format!("{n} {}", fmt_bytes(&d2)));
+                break;
             }
         }
     }
